@@ -169,6 +169,43 @@ def deep_same(a, b):
     if isinstance(a, (list, tuple)): return len(a) == len(b) and all(deep_same(x, y) for x, y in zip(a, b))
     return a == b
 
+def reference_results(res):
+    """with a reference configured in op_out_like (results are FORMATTED like it), no route may return the reference itself or write into it:
+    every method, operator and function route is tried, and the result is then written to"""
+    fx = lib.impl(); import numpy as np
+    def snap(o): return (A.fmt_of(o), lib.codes_of(o) if o.val is not None else None, lib.status3(o), o.config.overflow, o.config.rounding)
+    routes = {
+        'm_sum': lambda x, y: x.sum(), 'm_cumsum': lambda x, y: x.cumsum(), 'm_cumprod': lambda x, y: x.cumprod(), 'm_prod': lambda x, y: x.prod(), 'm_max': lambda x, y: x.max(), 'm_min': lambda x, y: x.min(),
+        'm_mean': lambda x, y: x.mean(), 'm_dot': lambda x, y: x.dot(y), 'm_clip': lambda x, y: x.clip(-1.0, 1.0), 'm_conj': lambda x, y: x.conj(), 'm_transpose': lambda x, y: x.transpose(), 'm_flatten': lambda x, y: x.flatten(),
+        'm_reshape': lambda x, y: x.reshape((3, 1)), 'm_like': lambda x, y: x.like(y), 'm_copy': lambda x, y: x.copy(), 'm_deepcopy': lambda x, y: x.deepcopy(),
+        'o_add': lambda x, y: x + y, 'o_sub': lambda x, y: x - y, 'o_mul': lambda x, y: x * y, 'o_truediv': lambda x, y: x / y, 'o_floordiv': lambda x, y: x // y, 'o_mod': lambda x, y: x % y,
+        'o_radd': lambda x, y: 0.5 + x, 'o_const': lambda x, y: x * 2, 'o_neg': lambda x, y: -x, 'o_pos': lambda x, y: +x, 'o_abs': lambda x, y: abs(x), 'o_invert': lambda x, y: ~x,
+        'o_lshift': lambda x, y: x << 1, 'o_rshift': lambda x, y: x >> 1, 'o_and': lambda x, y: x & y, 'o_or': lambda x, y: x | y, 'o_xor': lambda x, y: x ^ y, 'o_getitem': lambda x, y: x[1], 'o_slice': lambda x, y: x[0:2],
+        'f_np_cumsum': lambda x, y: np.cumsum(x), 'f_np_sum': lambda x, y: np.sum(x), 'f_np_add': lambda x, y: np.add(x, y), 'f_np_multiply': lambda x, y: np.multiply(x, y), 'f_fx_add': lambda x, y: fx.add(x, y), 'f_fx_sub': lambda x, y: fx.sub(x, y),
+        'f_fx_mul': lambda x, y: fx.mul(x, y), 'f_fx_cumsum': lambda x, y: fx.functions.cumsum(x), 'f_fx_sum': lambda x, y: fx.functions.sum(x), 'f_np_sort': lambda x, y: np.sort(x), 'f_np_abs': lambda x, y: np.abs(x),
+    }
+    for opt in ('op_out_like', 'array_op_out_like'):
+        for name, fn in routes.items():
+            c = {'reference_option': opt, 'route': name}
+            res.count('U:reference-results', key=repr(c), nontrivial=True)
+            try:
+                t = fx.Fxp([0.5, 0.25, -1.0], True, 24, 4)
+                x = fx.Fxp([1.5, -2.25, 2.625], True, 16, 8); y = fx.Fxp([0.5, 0.25, -1.0], True, 16, 8)
+                setattr(x.config, opt, t)
+                before = snap(t); xb = snap(x)
+                try: z = fn(x, y)
+                except Exception: continue          # (whether a route accepts the setting is not this property's matter)
+                same = z is t
+                if isinstance(z, fx.Fxp) and not same:
+                    z.config.overflow = 'wrap'; z.config.rounding = 'around'
+                    try: z(1e9 if np.asarray(z.val).ndim == 0 else np.full(np.asarray(z.val).shape, 1e9))
+                    except Exception: pass
+                after = snap(t)
+            except Exception as e:
+                res.fail(c, 'C20: a route with a configured reference raised %s' % lib.exc_name(e), got=str(e)[:200]); continue
+            if same or after != before:
+                res.fail(c, 'C20: the result of %s with %s configured IS the reference object, or the operation / a later write to the result changed the reference' % (name, opt), expected=before, got=(same, after))
+
 def config_targets(res):
     """the four Fxp-valued settings of a configuration (op_out, op_out_like, array_op_out, array_op_out_like) are state too: an object derived
     from x (a result, -x, an object built with config=x.config) has its own copies, so using or changing them never reaches x's"""
@@ -305,7 +342,7 @@ def shard(shard, nshards, rng, tier, extra):
         run_history(random.Random(hseed), res, hseed)
     for _ in range(12 if tier == 'quick' else 200): view_write_through(rng, res)
     if shard == 0:
-        inputs_unchanged(rng, res); clip_bounds_unchanged(res); invalid_config(rng, res); config_targets(res); failed_derivation(res)
+        inputs_unchanged(rng, res); clip_bounds_unchanged(res); invalid_config(rng, res); config_targets(res); reference_results(res); failed_derivation(res)
     return res
 
 def run(seed, tier):
@@ -321,5 +358,6 @@ def replay(payload):
     elif 'clip' in c: clip_bounds_unchanged(res)
     elif 'key' in c: invalid_config(None, res)
     elif 'target_option' in c: config_targets(res)
+    elif 'reference_option' in c: reference_results(res)
     elif 'failed_derivation' in c: failed_derivation(res)
     return {'holds': not res.failures, 'failures': res.failures}
